@@ -43,19 +43,64 @@ func relation(src, dst slot) string {
 	return "other-client-other-purpose"
 }
 
-func owners() []struct {
+type owner struct {
 	name string
-	id   []byte
-} {
-	return []struct {
-		name string
-		id   []byte
-	}{{string(clientA), clientA}, {string(clientB), clientB}, {"server", nil}}
+	id   []byte // nil: the server-global keys
 }
 
-func v1Slots(dir string) []slot {
+func owners() []owner {
+	return []owner{{string(clientA), clientA}, {string(clientB), clientB}, {"server", nil}}
+}
+
+// nearPair is two valid client ids (keystore.ValidateID: letters, digits, '-', '_', ' ', 5..256 bytes) that are distinct
+// identities but nearly the same text. A key stored for one of them must not load as the other's
+// ("bound to its owner ... a key file copied or renamed to another identity fails to load"), however the owner binding
+// normalises, truncates or compares the id.
+type nearPair struct {
+	how  string
+	a, b []byte
+}
+
+var nearPairs = []nearPair{
+	{"trailing-space", []byte("alice"), []byte("alice ")},
+	{"leading-space", []byte("alice"), []byte(" alice")},
+	{"letter-case", []byte("alice"), []byte("Alice")},
+	{"one-id-prefix-of-the-other", []byte("alice"), []byte("alice2")},
+	{"dash-vs-underscore", []byte("bob-2"), []byte("bob_2")},
+}
+
+func (p nearPair) owners() []owner {
+	return []owner{{string(p.a), p.a}, {string(p.b), p.b}}
+}
+
+// populateOwners generates `gens` keys of every kind each owner can have.
+func populateOwners(ks ksrig.FullKeyStore, gens int, own []owner) error {
+	for g := 0; g < gens; g++ {
+		for _, k := range ksrig.ModelKinds {
+			for _, o := range own {
+				if k.PerClient() != (o.id != nil) {
+					continue
+				}
+				if err := ksrig.ModelGenerate(ks, k, o.id); err != nil {
+					return fmt.Errorf("generate %s/%q: %w", k, o.id, err)
+				}
+			}
+		}
+	}
+	return nil
+}
+
+// nearTag is appended to signatures and class keys of the near-identical-id matrix ("" for the far-apart owners).
+func nearTag(near string) string {
+	if near == "" {
+		return ""
+	}
+	return " ids-differ-by=" + near
+}
+
+func v1Slots(dir string, own []owner) []slot {
 	var out []slot
-	for _, o := range owners() {
+	for _, o := range own {
 		for _, k := range ksrig.ModelKinds {
 			if k.PerClient() != (o.id != nil) {
 				continue
@@ -73,18 +118,24 @@ func v1Slots(dir string) []slot {
 	return out
 }
 
-func runBindingV1(r *ev.Run, cfg config) {
+// runBindingV1: own = the identities whose stored files are exchanged; near = how their ids differ ("" = far apart).
+func runBindingV1(r *ev.Run, cfg config, own []owner, near string) {
 	g := newRig(cfg, "")
 	defer g.destroy()
 	ks, err := g.open(cfg.cache)
 	if err == nil {
-		err = populate(ks, 2)
+		err = populateOwners(ks, 2, own)
 	}
 	if err != nil {
 		r.Inconclusive("binding v1: cannot populate: " + err.Error())
 		return
 	}
-	slots := v1Slots(g.dir)
+	slots := v1Slots(g.dir, own)
+	if near != "" && len(slots) < 2*3*2 {
+		// two clients x three kinds x (current + one rotated): the near ids must really have produced distinct files
+		r.Inconclusive(fmt.Sprintf("binding v1: ids %q / %q gave only %d key files", own[0].id, own[1].id, len(slots)))
+		return
+	}
 	content := map[string][]byte{}
 	for _, s := range slots {
 		b, err := os.ReadFile(s.path)
@@ -142,17 +193,26 @@ func runBindingV1(r *ev.Run, cfg config) {
 			os.WriteFile(dst.path, content[dst.path], 0o600)
 			r.Case()
 			r.Count("b_relocations_checked_v1", 1)
-			r.Distinct(fmt.Sprintf("%s|b|%s->%s|%s", cfg.name, src.role(), dst.role(), rel))
-			detail := map[string]interface{}{"config": cfg.name, "seed": r.Seed, "src": src.path, "dst": dst.path, "relation": rel, "stack": stack, "returned": hexAll(got)}
+			if near != "" {
+				r.Count("b_relocations_checked_v1_near_identical_ids", 1)
+				r.SetAdd("b_near_identical_id_pairs_v1", near)
+			}
+			r.Distinct(fmt.Sprintf("%s|b|%s->%s|%s%s", cfg.name, src.role(), dst.role(), rel, nearTag(near)))
+			detail := map[string]interface{}{"config": cfg.name, "seed": r.Seed, "src": src.path, "dst": dst.path, "src_id": string(src.id), "dst_id": string(dst.id), "relation": rel, "stack": stack, "returned": hexAll(got)}
 			switch {
 			case site != "":
-				r.Violation(fmt.Sprintf("v1 relocated key file: load panics at %s (src=%s dst=%s %s)", site, src.role(), dst.role(), rel), detail)
+				r.Violation(fmt.Sprintf("v1 relocated key file: load panics at %s (src=%s dst=%s %s)%s", site, src.role(), dst.role(), rel, nearTag(near)), detail)
 			case lerr == nil:
-				r.Violation(fmt.Sprintf("v1 relocated key file loads under another owner: src=%s dst=%s relation=%s", src.role(), dst.role(), rel), detail)
+				r.Violation(fmt.Sprintf("v1 relocated key file loads under another owner: src=%s dst=%s relation=%s%s", src.role(), dst.role(), rel, nearTag(near)), detail)
 			default:
 				r.Count("b_relocations_rejected_v1", 1)
 			}
 		}
+	}
+	if near != "" {
+		r.SampleN("b/v1/near", 5, map[string]interface{}{"oracle": "b", "config": cfg.name, "slots": len(slots), "ids": []string{fmt.Sprintf("%q", own[0].id), fmt.Sprintf("%q", own[1].id)}, "ids_differ_by": near,
+			"example": fmt.Sprintf("content of %q written over %q, then GetClientIDSymmetricKey(%q) on a fresh handle", ksrig.ModelV1FileName(ksrig.ModelStorageSym, own[0].id), ksrig.ModelV1FileName(ksrig.ModelStorageSym, own[1].id), own[1].id)})
+		return
 	}
 	r.SampleN("b/v1", 1, map[string]interface{}{"oracle": "b", "config": cfg.name, "slots": len(slots), "example": "content of alice_storage_sym written over bob-2_old_storage_sym, then GetClientIDSymmetricKey(bob-2_old) on a fresh handle"})
 }
@@ -173,9 +233,9 @@ type ringOpenerRW interface {
 	OpenKeyRingRW(path string) (api.MutableKeyRing, error)
 }
 
-func v2Slots() []slot {
+func v2Slots(own []owner) []slot {
 	var out []slot
-	for _, o := range owners() {
+	for _, o := range own {
 		for _, k := range ksrig.ModelKinds {
 			if k.PerClient() != (o.id != nil) {
 				continue
@@ -186,18 +246,18 @@ func v2Slots() []slot {
 	return out
 }
 
-func runBindingV2(r *ev.Run, cfg config) {
+func runBindingV2(r *ev.Run, cfg config, own []owner, near string) {
 	g := newRig(cfg, "")
 	defer g.destroy()
 	ks, err := g.open(0)
 	if err == nil {
-		err = populate(ks, 2)
+		err = populateOwners(ks, 2, own)
 	}
 	if err != nil {
 		r.Inconclusive("binding v2: cannot populate: " + err.Error())
 		return
 	}
-	slots := v2Slots()
+	slots := v2Slots(own)
 	content := map[string][]byte{}
 	// stored bytes of every ring, as the back end returns them
 	for _, c := range g.log.Calls() {
@@ -253,13 +313,17 @@ func runBindingV2(r *ev.Run, cfg config) {
 			g.close()
 			r.Case()
 			r.Count("b_relocations_checked_v2", 1)
-			r.Distinct(fmt.Sprintf("%s|b|%s->%s|%s", cfg.name, src.kind, dst.kind, rel))
+			if near != "" {
+				r.Count("b_relocations_checked_v2_near_identical_ids", 1)
+				r.SetAdd("b_near_identical_id_pairs_v2", near)
+			}
+			r.Distinct(fmt.Sprintf("%s|b|%s->%s|%s%s", cfg.name, src.kind, dst.kind, rel, nearTag(near)))
 			detail := map[string]interface{}{"config": cfg.name, "seed": r.Seed, "src": src.path, "dst": dst.path, "relation": rel, "stack": stack, "returned": ev.Hex(got)}
 			switch {
 			case site != "":
-				r.Violation(fmt.Sprintf("v2 relocated key ring: load panics at %s (relation=%s)", site, rel), detail)
+				r.Violation(fmt.Sprintf("v2 relocated key ring: load panics at %s (relation=%s)%s", site, rel, nearTag(near)), detail)
 			case openErr == nil || getErr == nil:
-				r.Violation(fmt.Sprintf("v2 relocated key ring loads under another path: relation=%s", rel), detail)
+				r.Violation(fmt.Sprintf("v2 relocated key ring loads under another path: relation=%s%s", rel, nearTag(near)), detail)
 			default:
 				r.Count("b_relocations_rejected_v2", 1)
 			}
@@ -272,11 +336,22 @@ func runBindingV2(r *ev.Run, cfg config) {
 			r.Inconclusive(fmt.Sprintf("binding v2: untouched ring %s does not load: %v", s.path, err))
 		}
 	}
+	if near != "" {
+		r.SampleN("b/"+cfg.name+"/near", 5, map[string]interface{}{"oracle": "b", "config": cfg.name, "rings": len(slots), "ids": []string{fmt.Sprintf("%q", own[0].id), fmt.Sprintf("%q", own[1].id)}, "ids_differ_by": near,
+			"example": fmt.Sprintf("bytes of %q presented as %q, then OpenKeyRing + GetClientIDSymmetricKey(%q) on a fresh handle", slots[1].path+".keyring", slots[len(slots)/2+1].path+".keyring", own[1].id)})
+		return
+	}
 	r.SampleN("b/"+cfg.name, 1, map[string]interface{}{"oracle": "b", "config": cfg.name, "rings": len(slots), "example": "bytes of client/alice/storage-sym.keyring presented as client/bob-2_old/storage-sym.keyring, then OpenKeyRing + GetClientIDSymmetricKey(bob-2_old) on a fresh handle"})
 }
 
 func runBinding(r *ev.Run) {
-	runBindingV1(r, configs[0])
-	runBindingV2(r, configs[3])
-	runBindingV2(r, configs[4])
+	runBindingV1(r, configs[0], owners(), "")
+	runBindingV2(r, configs[3], owners(), "")
+	runBindingV2(r, configs[4], owners(), "")
+	// the same matrix between identities whose ids are nearly the same text
+	for _, p := range nearPairs {
+		runBindingV1(r, configs[0], p.owners(), p.how)
+		runBindingV2(r, configs[3], p.owners(), p.how)
+		runBindingV2(r, configs[4], p.owners(), p.how)
+	}
 }
